@@ -211,6 +211,9 @@ class Loader:
                 sys.modules[name] = saved
             else:
                 sys.modules.pop(name, None)
+        parent, _, leaf = name.rpartition(".")
+        if parent in self.modules:
+            setattr(self.modules[parent], leaf, mod)
         return mod
 
     def function_span(self, relpath, funcname):
